@@ -282,11 +282,11 @@ K("O05.2a", ["C05"], "parser", "c05_function_params_progress", needs_fmt_stub=Tr
 # ---------------------------------------------------------------------------------------------
 # C03 / C04 collector
 # ---------------------------------------------------------------------------------------------
-K("O03.1", ["C03"], "gc", "c03_constructors_register", level="bounded", bound="one float, one empty array", functions=["Object::float", "Object::array", "GC::trace", "GC::maybe_trace"],
+K("O03.1", ["C03", "C04"], "gc", "c03_constructors_register", level="bounded", bound="one float, one empty array", functions=["Object::float", "Object::array", "GC::trace", "GC::maybe_trace"],
   desc="heap constructors register their result exactly once; immediates never; maybe_trace does not register twice")
-V("O03.gc", ["C03", "C05"], "c03_collector", expect_verified=30,
+V("O03.gc", ["C03", "C04", "C05"], "c03_collector", expect_verified=35,
   functions=["GC::new", "GC::maybe_trace", "GC::trace", "GC::untrace", "GC::destroy", "GC::run", "GC::reset_marks", "GC::sweep", "GC::mark"],
-  desc="the collector algorithm on its REAL text over an ABSTRACT heap (address, tag and array contents uninterpreted: every heap shape - nested, shared, cyclic - every number of objects and roots). mark: marks the object if managed, everything newly marked has all its managed elements marked, marks only grow, the managed list is untouched, terminates on cycles (measure: unset bits). run: after the mark phase every object reachable from a root through managed arrays is marked (induction on the path length, lemma_reachable_is_marked); sweep hands to `free` ONLY unmarked objects, each removed from the list as it is freed (free REQUIRES the caller's permission may_free, which run's precondition grants for unreachable managed objects only), keeps every marked one, and leaves the list duplicate-free; so every reachable managed object is still managed after run and nothing is released twice. untrace only removes entries and terminates on cyclic arrays; maybe_trace never registers twice; destroy releases everything. Bitmap index arithmetic and swap_remove bookkeeping proved (no out-of-bounds panic).")
+  desc="the collector algorithm on its REAL text over an ABSTRACT heap (address, tag and array contents uninterpreted: every heap shape - nested, shared, cyclic - every number of objects and roots). mark: marks the object if managed, everything newly marked has all its managed elements marked, marks only grow, the managed list is untouched, terminates on cycles (measure: unset bits). run: after the mark phase every object reachable from a root through managed arrays is marked (induction on the path length, lemma_reachable_is_marked); sweep hands to `free` ONLY unmarked objects, each removed from the list as it is freed (free REQUIRES the caller's permission may_free, which run's precondition grants for unreachable managed objects only), keeps every marked one, and leaves the list duplicate-free; so every reachable managed object is still managed after run and nothing is released twice. PRECISION: whatever mark marks is reachable from its argument, so after run every object still managed is one that is reachable from the roots (managed' = managed /\\ reachable). untrace only removes entries and terminates on cyclic arrays; maybe_trace never registers twice; destroy releases everything. Bitmap index arithmetic and swap_remove bookkeeping proved (no out-of-bounds panic).")
 # O03.2 (c03_run_universe3) and O04.3 (c04_untrace_result) are written in contracts/kani/gc.rs but NOT registered:
 # CBMC does not finish symbolic execution of GC::run / sweep / destroy (bitvec::BitVec resize / iter_zeros) within
 # 800 s even for a universe of three objects and a concrete root set (measured). The collector algorithm is decided
@@ -297,7 +297,7 @@ V("O03.gc", ["C03", "C05"], "c03_collector", expect_verified=30,
 # ---------------------------------------------------------------------------------------------
 V("O17.1", ["C17"], "c17_session", expect_verified=2, functions=["Compiler::compile_program", "Compiler::compile_ast"],
   desc="after compile_ast the compiler's code buffer is empty on Ok AND on Err; on Err no remembered last instruction, no open loop context, and the global scope holds EXACTLY the names it held before the call, in the same slots (none of the failed program's declarations survives; every generator arm keeps the earlier names on all exits: sym_globals_kept); on Ok the code handed out ends with Halt and carries all constants; either way the session is back at the outermost global scope; static height: a program starts with an empty operand stack and reaches Halt with an empty one (every statement dropped what it pushed)")
-V("O17.2", ["C17", "C03"], "c17_vm", expect_verified=2, functions=["VM::run", "VM::run_code (prologue)"],
+V("O17.2", ["C17", "C03", "C04"], "c17_vm", expect_verified=2, functions=["VM::run", "VM::run_code (prologue)"],
   desc="VM::run puts the same collector back on every exit path (heap values held by globals stay managed); every run starts from an empty operand stack, one call frame, ip = bp = 0, the new code; globals kept")
 
 # ---------------------------------------------------------------------------------------------
@@ -325,7 +325,7 @@ K("O13.tw.idx", ["C13", "C02"], "vm", "c13_twin_index_arms", level="bounded", bo
   functions=["VM::run_code arms IndexGet, IndexSet"], desc="target below index (below value) handed to index_get / index_set in that order")
 K("O13.tw.arr", ["C13", "C02"], "vm", "c13_twin_array_arm", level="bounded", bound="stack of 3, length 2", needs_fmt_stub=True,
   functions=["VM::run_code arm Array"], desc="pops exactly `length` values, array elements in source order")
-K("O03.tw.halt", ["C03", "C02"], "vm", "c03_twin_halt", level="bounded", bound="stack of 3", needs_fmt_stub=True,
+K("O03.tw.halt", ["C03", "C04", "C02"], "vm", "c03_twin_halt", level="bounded", bound="stack of 3", needs_fmt_stub=True,
   functions=["VM::run_code arm Halt"], desc="the result is untraced and handed out")
 
 # ---------------------------------------------------------------------------------------------
@@ -334,7 +334,6 @@ K("O03.tw.halt", ["C03", "C02"], "vm", "c03_twin_halt", level="bounded", bound="
 NOT_APPLICABLE = {
     "C01": "relational claim over all programs (bytecode run == definitional evaluation of the tree): needs a verified semantics of VM::run as a whole and an inductive proof through compile_expression; neither function is within reach of Verus or Kani here (DESIGN.md s.1, s.5); its per-function ingredients are decided under C06/C10/C12/C13/C14/C15",
     "C08": "tokenisation and literal decoding live in Tokenizer::next / skip_while / read_str and parse_string_expression (Chars iterators, str slicing, String::push/replace): no Verus model exists for them and CBMC does not finish Tokenizer::next even on 2 symbolic ASCII bytes with the Unicode predicates stubbed (> 300 s, measured) nor str::chars().count() on concrete 2-character texts; the only decidable fragment (is_whitespace for every char) is reported under C07 (O07.4w). Two genuine escape-decoding defects found by reading were repaired (known-findings.txt)",
-    "C04": "reclamation of garbage and the emptiness of the heap after a run are properties of GC::sweep / destroy / Drop and of Object::free over the managed list: bitvec::BitVec and iterator adapters have no Verus model and CBMC does not finish their symbolic execution even for a universe of three objects with a concrete root set (> 800 s, measured; harnesses kept unregistered in contracts/kani/gc.rs). The fragments that are decidable (constructors register every allocation once; Halt untraces the result; root sets) are reported under C03. The collector of the pinned tree never freed anything and was repaired (known-findings.txt); valgrind runs on the examples are recorded in DESIGN.md but are not part of any check",
     "C16": "quantifies over thread schedules, process histories and build profiles: Kani has no thread support, Verus would need the code rewritten onto its permission types, neither observes two build profiles (DESIGN.md s.5)",
 }
 
@@ -360,6 +359,14 @@ PROPERTIES = {
         "note": "Trusted in (2): the contracts of bitvec::BitVec's operations (new / reserve / truncate / clear / resize / set / index / iter_zeros().rev(): the crate's documentation), of Iterator::position / any for the predicate 'same address', of Object::as_vec_unchecked / free (raw memory), and the heap-typing axiom that two heap words with the same address are the same word. The heap is a fixed function of the object word during a collection (mark and sweep do not write heap memory; free releases only the freed object). Seeded change C03-2 (mark rewritten as a worklist loop with a wrong `return`) is reported UNDECIDED: the unit's loop rewrite no longer finds the loop it is written for. The pinned tree's collector was unusable (mark indexed the bitmap through an unrelated address, nothing was ever freed): repaired by fix commits.",
         "design_ref": "DESIGN.md 3.9",
         "undecided": ["run's precondition at its two call sites: no Rust local / native frame holds the only reference to a managed object across gc.run (the root set is exact for the MACHINE state, O12.arms; values held only by Rust locals are not modelled)", "the heap is what the object words say it is (as_vec_unchecked / free are raw-memory operations, assumed)", "index_set_string aliasing (strings are out of reach)", "that unreachable objects ARE reclaimed promptly (C04, not applicable) beyond destroy releasing everything"],
+        "assumptions": ["bitvec::BitVec operations behave as documented (dependency)", "Iterator::position / any over the managed list (std)", "one word per heap address (heap typing)", "Object::as_vec_unchecked reads the array's elements, Object::free releases exactly that allocation (unsafe code)"],
+    },
+    "C04": {
+        "level": "proof",
+        "claim": "PARTIAL: the collector's half. Proved (Verus unit c03_collector, real text of impl GC over an abstract heap - every heap shape, every number of objects and roots): after EVERY collection the collector manages exactly the previously managed objects that are reachable from the roots (run: reachable => kept, and kept => reachable: mark marks nothing that is not reachable from its argument; sweep keeps only marked objects), every other managed object has been passed to `free` exactly once and removed from the managed list in the same step (the list is duplicate-free, so no second release); destroy (what Drop for GC calls) leaves nothing managed and releases every managed object once; untrace only removes the result's graph from the managed list (hand-over to the caller, nothing freed, terminates on cyclic results); maybe_trace never registers an object twice. Proved (Verus, real VM::run): the per-run collector swap puts the machine's collector back on every exit path, error paths included. Checked (Kani, bounded): Halt untraces the result before handing it out; every heap constructor registers its result exactly once.",
+        "note": "NOT decided: the ledger claim as a whole - that every object a run allocated is released exactly once on every exit path (normal, or an error after k instructions for every k) and that the result graph can be released by the caller with nothing remaining. That composes Drop for GC, the `?` exit paths of VM::run_code, the compiler's hand-over of constants (untrace -> maybe_trace) and the raw allocator over a whole run; no contract in reach states it. The heap itself (`as_vec_unchecked`, `free`) and bitvec are under assumed contracts (see C03).",
+        "design_ref": "DESIGN.md 3.9",
+        "undecided": ["every allocation of a run is released exactly once on every exit path (whole-run ledger, crash points)", "the result graph stays valid after the interpreter is gone and can be released once (free_recursive on shared / cyclic results)", "constants handed from the compiler's collector to the machine's (untrace, then maybe_trace) across a session", "Drop for GC: the permission to free everything at drop time is the caller's"],
         "assumptions": ["bitvec::BitVec operations behave as documented (dependency)", "Iterator::position / any over the managed list (std)", "one word per heap address (heap typing)", "Object::as_vec_unchecked reads the array's elements, Object::free releases exactly that allocation (unsafe code)"],
     },
     "C05": {
